@@ -3,7 +3,7 @@ UNITS = {'args': dict(wrap='wrap.cc', shim=True, new_block=64, cxxflags=['-DVERI
          # split_args: vector<string> of k words needs 32*pow2ceil(k) bytes from operator new
          'split64': dict(wrap='wrap.cc', shim=True, new_block=64, cxxflags=['-DVERIF_UMAP_CAP=6'], ir2c_flags=['--ptrdiff', '--flat-unions'], gen_defs=['VERIF_NEW_ZERO']),
          'split128': dict(wrap='wrap.cc', shim=True, new_block=128, cxxflags=['-DVERIF_UMAP_CAP=6'], ir2c_flags=['--ptrdiff', '--flat-unions'], gen_defs=['VERIF_NEW_ZERO'])}
-UNITS['cls'] = dict(wrap='wrap.cc', shim=True, new_block=320, cxxflags=['-DVERIF_UMAP_CAP=4'], ir2c_flags=['--ptrdiff', '--flat-unions'], gen_defs=['VERIF_NEW_ZERO'])
+UNITS['cls'] = dict(wrap='wrap.cc', shim=True, new_block=320, cxxflags=['-DVERIF_UMAP_CAP=4', '-DTOKW=6'], ir2c_flags=['--ptrdiff', '--flat-unions'], gen_defs=['VERIF_NEW_ZERO'])
 FAST = ['--max-field-sensitivity-array-size', '512']
 BOUNDS = ''
 STUBS = []
@@ -26,16 +26,26 @@ def queries(tier):
     for L in ([0, 1, 2, 3] if tier == 'quick' else [0, 1, 2, 3, 4, 5]):
         qs.append(dict(name='split_len%d' % L, unit='split64' if L <= 3 else 'split128', harness='h_split.c', defs={'LEN': L}, unwind=L + 3, timeout=900, mem_gb=6, flags=FAST,
                        tv_runs=300, desc='split_args on %d symbolic bytes vs reference shell-style tokenizer' % L, bounds='input length %d, all byte values but NUL' % L))
-    cells = [(1, (l,)) for l in range(4)] + [(2, (a, b)) for a in range(4) for b in range(4)]
-    for nt, ls in cells:
+    # token kinds: (kind, length); see h_classify.c
+    S0, S1, S2 = (0, 0), (0, 1), (0, 2)
+    LO1, LO2, LO3 = (1, 3), (1, 4), (1, 5)      # "--" + 1..3 symbolic bytes  (TOKW must be >= 5)
+    P2, P3 = (2, 2), (2, 3)                     # 'x' + symbolic bytes
+    F2, F2S = (3, 3), (4, 3)                    # "-ab", "-aa"
+    cells = [(S0,), (S1,), (S2,), (LO1,), (LO2,), (P3,), (F2,), (F2S,), (S1, S1), (S2, S1), (LO1, LO1), (LO1, S2), (F2, S2)]
+    if tier == 'thorough':
+        cells += [(LO3,), (S2, S2), (LO2, LO1), (LO2, LO2), (S1, S1, S1), (LO1, S1, LO1), (F2S, LO1)]
+    for toks_ in cells:
+        nt = len(toks_)
+        ls = [t[1] for t in toks_]
         d = {'NTOK': nt}
-        for i, l in enumerate(ls): d['L%d' % i] = l
+        for i, (k, l) in enumerate(toks_): d['L%d' % i] = l; d['K%d' % i] = k
         maxname = max([1] + [l - 2 for l in ls])          # flag names have length 1, --name up to len-2
         maxvals = sum(max(1, l - 1) for l in ls)          # "-ab" contributes len-1 values
-        qlist = [(1, i, 0) for i in range(nt + 1)] + [(2, j, k) for k in range(0, maxname + 1) for j in range(maxvals + 1) if not (k != 1 and j >= nt + 1)]
+        qlist = [(1, i, 0) for i in range(nt + 1)] + [(2, j, k) for k in range(0, maxname + 1) for j in range(min(maxvals, nt if k != 1 else maxvals) + 1)]
+        cname = '_'.join('%d%d' % t for t in toks_)
         for qk, qi, kl in qlist:
             dd = dict(d, QKIND=qk, QIDX=qi, KLEN=kl)
-            qs.append(dict(name='classify_%s_q%d_%d_%d' % ('_'.join(map(str, ls)), qk, qi, kl), unit='cls', harness='h_classify.c', defs=dd, unwind=6, timeout=900, mem_gb=8, flags=FAST,
-                           tv_runs=60, desc='classification of %d tokens of lengths %s; query kind %d index %d key length %d' % (nt, ls, qk, qi, kl), bounds='token lengths %s, all byte values but NUL' % (ls,)))
+            qs.append(dict(name='classify_%s_q%d_%d_%d' % (cname, qk, qi, kl), unit='cls', harness='h_classify.c', defs=dd, unwind=7, timeout=600, mem_gb=8, flags=FAST,
+                           tv_runs=60, desc='classification of %d tokens (kind,length) %s; query kind %d index %d key length %d' % (nt, toks_, qk, qi, kl), bounds='token kinds/lengths %s' % (toks_,)))
     qs.append(dict(name='exp3', unit='cls', harness='h_exp.c', defs={'L0': 3}, unwind=6, timeout=900, mem_gb=8, flags=FAST))
     return qs
